@@ -817,9 +817,15 @@ def run(ctx):
                 "sequences; non-trivial = distinct (non-empty archive, open mode)",
                 "members <= 3, 9 contents, %d operations per archive" % (6 if ctx.tier == "quick" else 12), samples,
                 exhaustive=(ctx.tier != "quick"))
-    ctx.level = "proof"
+    ctx.level = "other"
     ctx.explanation = (
-        "PROVED for all inputs (every obligation generated from the AST of the real arfile.py and discharged by SMT): "
+        "NOT a full proof any more: the header walk ArFile.__collect_members has four kinds of OPEN obligations (OPEN_OBLIGATIONS: "
+        "exception freedom of from_file inside the loop and the preservation of two invariants at a symbolic member count - the "
+        "back ends time out; an earlier run had discharged them only because the loop havoc of the generator forgot containers "
+        "held in fields, so the loop body was checked from the entry state alone; found by a seeded change that capped the walk "
+        "at 1024 members, fixed, and the obligations that no longer discharge are recorded as open). Its other obligations, "
+        "and everything else below, are discharged; the walk is covered by the bounded cross-check (archives of 0-3 and of 1500 "
+        "members). PROVED for all inputs (every obligation generated from the AST of the real arfile.py and discharged by SMT): "
         "ArMember.read / readline / readlines / seek / tell behave as io.BytesIO over data[offset:end] in the three ways a "
         "member gets its file object and for every incoming position of a shared file object; ArMember.from_file decodes the "
         "60-byte header (all outcomes: end of data, short header, bad magic, non-numeric field) and on a well-formed header "
@@ -867,6 +873,12 @@ def _archives(tier, rng):
             # header fields of every width, including ones that fill all their columns (12 / 6 / 6 digits)
             yield [(names[i], contents[c], (1000 + i, 999999999999, 0)[(i + n) % 3], (10 * i, 999999, 165536)[(i + c) % 3],
                     (7 + i, 123456, 0)[(c + n) % 3], b"100644") for i, c in enumerate(combo)]
+    # sizes no small example reaches: thousands of members (a duplicated name whose last occurrence is far down), members and
+    # single lines beyond every read buffer (8 KiB, 64 KiB)
+    many = [(b"f%04d" % (i % 1400), b"c%d\n" % i if i % 3 else b"", 7, 0, 0, b"100644") for i in range(1500)]
+    yield many
+    long_line = b"L" * 70001 + b"\n" + b"short\n" + b"M" * 9000
+    yield [(b"big", long_line, 1, 2, 3, b"100644"), (b"rnd", bytes(range(256)) * 300, 1, 2, 3, b"100644"), (b"tail", b"t\n", 1, 2, 3, b"100644")]
 
 
 class _NamedBytesIO(io.BytesIO):
@@ -948,13 +960,27 @@ def bounded_arfile(ctx):
                     # interleaved operations across members against io.BytesIO oracles
                     oracles = [io.BytesIO(m[1]) for m in members]
                     ops = []
-                    for step in range(6 if ctx.tier == "quick" else 12):
+                    # members beyond the usual buffer sizes get a fixed plan first (whole-line, sized and whole reads)
+                    plan = []
+                    for bi, m_ in enumerate(members[:8]):
+                        if len(m_[1]) > 8000:
+                            plan += [(bi, "readline"), (bi, "readbig"), (bi, "rewind"), (bi, "read"), (bi, "rewind"), (bi, "readlines")]
+                    for step in range(len(plan) + (6 if ctx.tier == "quick" else 12)):
                         if not members:
                             break
-                        i = rng.randrange(len(members))
-                        op = rng.choice(["read", "readn", "readline", "readlinen", "readlines", "seek0", "seek1", "seek2", "tell"])
+                        if step < len(plan):
+                            i, op = plan[step]
+                        else:
+                            i = rng.randrange(min(len(members), 40))
+                            op = rng.choice(["read", "readn", "readline", "readlinen", "readlines", "seek0", "seek1", "seek2", "tell"])
                         n = len(members[i][1])
-                        if op == "read":
+                        if op == "readbig":
+                            a, b = got[i].read(66000), oracles[i].read(66000)
+                        elif op == "rewind":
+                            got[i].seek(0)
+                            oracles[i].seek(0)
+                            a = b = None
+                        elif op == "read":
                             a, b = got[i].read(), oracles[i].read()
                         elif op == "readn":
                             k = rng.randint(1, 3)
@@ -985,8 +1011,10 @@ def bounded_arfile(ctx):
                             a, b = got[i].tell(), oracles[i].tell()
                         ops.append((i, op))
                         if a != b or got[i].tell() != oracles[i].tell():
+                            short = lambda v: v if v is None or isinstance(v, int) or len(v) <= 60 else \
+                                ("%d items / bytes, starting %r" % (len(v), v[:1] if isinstance(v, list) else v[:40]))
                             problems.append("op sequence %r: member %d %s gave %r (tell %d), BytesIO gave %r (tell %d)"
-                                            % (ops, i, op, a, got[i].tell(), b, oracles[i].tell()))
+                                            % (ops, i, op, short(a), got[i].tell(), short(b), oracles[i].tell()))
                             break
                     for m in got:
                         m.close()
